@@ -1,12 +1,17 @@
+mod c03;
 mod c04;
 mod c22;
 mod c23;
+mod c3x;
+mod c44;
 mod c47;
 mod enc;
 mod gen;
 mod grid;
 mod ir;
 mod lx;
+mod plan;
+mod pq;
 mod px;
 mod smt;
 mod tvq;
@@ -40,6 +45,22 @@ fn main() {
             let out = c04::run(thorough, seed, threads);
             println!("{}", out);
         }
+        "c03" => {
+            let seed: u64 = std::env::var("VERIF_SEED").ok().and_then(|s| s.parse().ok()).unwrap_or(0);
+            let threads: usize = std::env::var("VERIF_THREADS").ok().and_then(|s| s.parse().ok()).unwrap_or(8);
+            println!("{}", c03::run(thorough, seed, threads));
+        }
+        "c38" | "c41" | "c48" | "c37" => {
+            let seed: u64 = std::env::var("VERIF_SEED").ok().and_then(|s| s.parse().ok()).unwrap_or(0);
+            let threads: usize = std::env::var("VERIF_THREADS").ok().and_then(|s| s.parse().ok()).unwrap_or(8);
+            let v = match cmd {
+                "c38" => c3x::run_c38(thorough, seed, threads),
+                "c41" => c3x::run_c41(thorough, seed, threads),
+                "c48" => c3x::run_c48(thorough, seed, threads),
+                _ => c3x::run_c37(thorough, seed, threads),
+            };
+            println!("{}", v);
+        }
         "c22" => {
             let seed: u64 = std::env::var("VERIF_SEED").ok().and_then(|s| s.parse().ok()).unwrap_or(0);
             let threads: usize = std::env::var("VERIF_THREADS").ok().and_then(|s| s.parse().ok()).unwrap_or(8);
@@ -49,6 +70,11 @@ fn main() {
             let seed: u64 = std::env::var("VERIF_SEED").ok().and_then(|s| s.parse().ok()).unwrap_or(0);
             let threads: usize = std::env::var("VERIF_THREADS").ok().and_then(|s| s.parse().ok()).unwrap_or(8);
             println!("{}", c23::run(thorough, seed, threads));
+        }
+        "c44" => {
+            let seed: u64 = std::env::var("VERIF_SEED").ok().and_then(|s| s.parse().ok()).unwrap_or(0);
+            let threads: usize = std::env::var("VERIF_THREADS").ok().and_then(|s| s.parse().ok()).unwrap_or(8);
+            println!("{}", c44::run(thorough, seed, threads));
         }
         "c47" => {
             let seed: u64 = std::env::var("VERIF_SEED").ok().and_then(|s| s.parse().ok()).unwrap_or(0);
